@@ -193,16 +193,88 @@ def _own_nodes(root):
         todo.extend(ast.iter_child_nodes(n))
 
 
-def py_effects(fi):
+COMPS = (ast.ListComp, ast.SetComp, ast.DictComp, ast.GeneratorExp)
+
+
+def comp_targets(comp):
+    """names bound by the `for` clauses of one comprehension / generator expression (variables of its own scope)"""
+    return set(t.id for g in comp.generators for t in ast.walk(g.target) if isinstance(t, ast.Name))
+
+
+def _names_outside_comprehensions(fn):
+    """identifiers (names, parameters, local defs) that occur in fn outside every comprehension"""
+    out = set()
+    todo = [fn]
+    while todo:
+        n = todo.pop()
+        if isinstance(n, COMPS):
+            continue
+        if isinstance(n, ast.Name):
+            out.add(n.id)
+        elif isinstance(n, ast.arg):
+            out.add(n.arg)
+        elif isinstance(n, (ast.FunctionDef, ast.ClassDef)):
+            out.add(n.name)
+        elif isinstance(n, (ast.Global, ast.Nonlocal)):
+            out |= set(n.names)
+        elif isinstance(n, ast.ExceptHandler) and n.name:
+            out.add(n.name)
+        todo.extend(ast.iter_child_nodes(n))
+    return out
+
+
+def _scoped_nodes(root, outside, hidden=frozenset()):
+    """(ast node, names hidden at that node) for the nodes that execute as part of a statement / expression, like
+    _own_nodes, but aware of the scope of comprehensions and generator expressions (Python reference 6.2.4): the
+    iterable of the first `for` clause is evaluated in the enclosing scope, everything else (element, key / value,
+    filters, later iterables) in the comprehension's own scope, where the `for` targets are its local variables.
+    A Name that is hidden is a variable of a comprehension, not of the function.
+    Fail closed: a target that also names something outside the comprehensions (3.12 inlines list / set / dict
+    comprehensions into the function's frame, so the two variables would share a slot in the event log), a walrus."""
+    if isinstance(root, ast.NamedExpr):
+        raise Unsupported('NamedExpr')
+    yield root, hidden
+    if isinstance(root, (ast.FunctionDef, ast.AsyncFunctionDef, ast.Lambda)):
+        kids = list(root.decorator_list if hasattr(root, 'decorator_list') else [])
+        kids += [d for d in root.args.defaults + root.args.kw_defaults if d is not None]
+        for k in kids:
+            for x in _scoped_nodes(k, outside, hidden):
+                yield x
+        return
+    if isinstance(root, COMPS):
+        tg = comp_targets(root)
+        if tg & outside or tg & hidden:
+            raise Unsupported('comprehension target %s is also a name of the function' % sorted((tg & outside) | (tg & hidden)))
+        inner = frozenset(hidden | tg)
+        first = root.generators[0]
+        for x in _scoped_nodes(first.iter, outside, hidden):
+            yield x
+        rest = [first.target] + list(first.ifs)
+        for g in root.generators[1:]:
+            rest += [g.iter, g.target] + list(g.ifs)
+        rest += [root.key, root.value] if isinstance(root, ast.DictComp) else [root.elt]
+        for k in rest:
+            for x in _scoped_nodes(k, outside, inner):
+                yield x
+        return
+    for k in ast.iter_child_nodes(root):
+        for x in _scoped_nodes(k, outside, hidden):
+            yield x
+
+
+def py_effects(fi, comps=False):
     """label -> dict(reads, writes, dels, ftarget, body) by Python's rules.
     reads: names the node may read; writes: names every completed instance binds; dels: deletes;
-    ftarget: (for header) names bound when and only when an iteration starts; body: entry label of the loop body."""
+    ftarget: (for header) names bound when and only when an iteration starts; body: entry label of the loop body.
+    comps: accept comprehensions / generator expressions (their free reads -- in the element, the iterables and the
+    filters of every `for` clause -- are reads of the node; their targets are not variables of the function)."""
     out = {}
     sk = fi.sk
     parents = {}
     for p in ast.walk(fi.fn):
         for c in ast.iter_child_nodes(p):
             parents[id(c)] = p
+    outside = _names_outside_comprehensions(fi.fn)
     for l, node in sk.node_of.items():
         e = {'reads': set(), 'writes': set(), 'dels': set(), 'ftarget': set(), 'body': 0}
         kind = sk.kind[l]
@@ -220,8 +292,10 @@ def py_effects(fi):
                         e['ftarget'].add(t.id)
                 e['body'] = entry_label(sk, f.body[0])
             for r in roots:
-                for n in _own_nodes(r):
+                for n, hidden in _scoped_nodes(r, outside):
                     if isinstance(n, ast.Name):
+                        if n.id in hidden:
+                            continue        # a variable of a comprehension
                         if isinstance(n.ctx, ast.Load):
                             e['reads'].add(n.id)
                         elif isinstance(n.ctx, ast.Store):
@@ -237,8 +311,7 @@ def py_effects(fi):
                         e['reads'].add(n.target.id)
                     elif isinstance(n, (ast.Global, ast.Nonlocal)):
                         pass       # declarations: no run-time effect
-                    elif isinstance(n, (ast.NamedExpr, ast.ListComp, ast.SetComp,
-                                        ast.DictComp, ast.GeneratorExp)):
+                    elif isinstance(n, COMPS) and not comps:
                         raise Unsupported(type(n).__name__)
         out[l] = {k: (sorted(v) if isinstance(v, set) else v) for k, v in e.items()}
     return out
@@ -319,7 +392,8 @@ def implicit_exception(src, fname, decisions, args):
     def tracer(frame, event, arg):
         if frame.f_code not in codes:
             return None
-        if event == 'exception' and arg[0].__name__ not in ('E0', 'E1', 'E2', 'E3', 'StopIteration'):
+        if event == 'exception' and arg[0].__name__ not in ('E0', 'E1', 'E2', 'E3', 'StopIteration', 'GeneratorExit'):
+            # (GeneratorExit: a generator expression abandoned by its consumer -- any(...) -- is closed, no statement raised)
             found.append(arg[0].__name__)
         return tracer
     old = sys.gettrace()
@@ -332,6 +406,16 @@ def implicit_exception(src, fname, decisions, args):
     finally:
         sys.settrace(old)
     return found[0] if found else None
+
+
+COMP_CODE_NAMES = ('<genexpr>', '<listcomp>', '<setcomp>', '<dictcomp>')
+
+
+def fn_code_of(code, parent):
+    """the code object of the def / lambda a comprehension's code object belongs to (code itself otherwise)"""
+    while code.co_name in COMP_CODE_NAMES and id(code) in parent:
+        code = parent[id(code)]
+    return code
 
 
 class Dyn(object):
@@ -364,6 +448,7 @@ class Dyn(object):
         self.declared_globals = set(n for st in _own_nodes_block(fi.fn.body) if isinstance(st, ast.Global) for n in st.names)
         nested = {}       # code name -> [(set of lines, code)]: a local function may be re-defined under the same name
         self.depth = {}   # id(code) -> nesting depth below the function (1 = defined directly in it)
+        self.code_parent = {}   # id(code) -> code object it is a constant of
         todo = [(f.__code__, 0)]
         while todo:
             c, dep = todo.pop()
@@ -374,6 +459,7 @@ class Dyn(object):
                     lines = set(l for _, _, l in k.co_lines() if l is not None) | {k.co_firstlineno}
                     nested.setdefault(k.co_name, []).append((lines, k))
                     self.depth[id(k)] = dep + 1
+                    self.code_parent[id(k)] = c
                     todo.append((k, dep + 1))
         self.nested = nested
 
@@ -439,7 +525,10 @@ class Dyn(object):
                     if k is None:
                         return
                     if e[3] in k.co_freevars and e[3] in own:
-                        ev.append((e[0], e[3], e[1], e[2]))
+                        # (a generator expression runs in a frame of its own but is part of the function that contains
+                        # it: the access is one of that function -- of this function itself when owner is None)
+                        kf = fn_code_of(k, self.code_parent)
+                        ev.append((e[0], e[3], None if kf is f.__code__ else kf.co_name, e[2]))
                 else:
                     return
         cur.end = len(ev)
@@ -635,8 +724,11 @@ def fn_own_bound(fnode):
         stores.add(x.arg)
     if isinstance(fnode, ast.Lambda):
         return stores
-    for n in _own_nodes_block(fnode.body):
-        if isinstance(n, ast.Name) and isinstance(n.ctx, (ast.Store, ast.Del)):
+    own = list(_own_nodes_block(fnode.body))
+    # the `for` targets of comprehensions are variables of the comprehension, they hide nothing in fnode
+    comp_tg = set(id(t) for c in own if isinstance(c, COMPS) for g in c.generators for t in ast.walk(g.target))
+    for n in own:
+        if isinstance(n, ast.Name) and isinstance(n.ctx, (ast.Store, ast.Del)) and id(n) not in comp_tg:
             stores.add(n.id)
         elif isinstance(n, (ast.FunctionDef, ast.ClassDef)):
             stores.add(n.name)
@@ -908,7 +1000,8 @@ def nested_activation_views(an, dyn, max_per_fn=3):
                 continue
             yes, why = allowed(act.code, g)
             if yes:
-                ev.append(('R', var, act.code.co_name, line))
+                rc = fn_code_of(act.code, parent)
+                ev.append(('R', var, None if rc is g else rc.co_name, line))
             else:
                 skipped.append((var, act.code.co_name, line, why))
         if bad:
@@ -1950,6 +2043,159 @@ def gen_closure_function(rnd, opts):
     return '\n'.join(g.lines) + '\n'
 
 
+class CompGen(ClosureGen):
+    """ClosureGen plus expressions whose variable reads sit in EVERY position of a comprehension / generator expression
+    -- element, dict key / value, the iterable of the first and of later `for` clauses, the filters of every clause, a
+    nested comprehension -- for list / set / dict comprehensions and generator expressions consumed on the spot, and in
+    a few other compound expression forms (conditional, boolean, ==-chain, subscript / slice, f-string, starred
+    argument).  They appear as right-hand sides, return values, expression statements, arguments of if / while tests,
+    iterables of for statements and in the bodies of local functions that are called at a later point.  In `focus`
+    mode the variables of the function are read ONLY in the filters (or only in one other position), so that the
+    filter is the read that keeps a value alive.  Comprehension targets are fresh names (q<k>)."""
+
+    def pool(self, defined):
+        return sorted(v for v in defined if (v in self.vars or v in _progs.PARAMS) and v not in self.lams)
+
+    def pick(self, pool, used, lo=0, hi=2):
+        n = self.r.randint(lo, max(lo, min(hi, len(pool))))
+        vs = [self.r.choice(pool) for _ in range(n)] if pool else []
+        used |= set(vs)
+        return vs
+
+    def comp(self, pool, used, depth=0, as_iterable=False):
+        r = self.r
+        # which positions may read the function's variables
+        mode = r.choice(['filter', 'filter', 'filter', 'elt', 'iter', 'later-iter', 'any', 'any'])
+        ngen = 2 if (mode == 'later-iter' or r.random() < 0.3) else 1
+        kind = r.choice(['list', 'list', 'set', 'dict', 'gen', 'gen'])
+        if as_iterable and kind == 'gen':
+            kind = 'list'
+        tg = []
+        clauses = []
+        nfilters = 0
+        for i in range(ngen):
+            q = 'q%d' % self.key()
+            reads_here = mode == 'any' or (mode == 'iter' and i == 0) or (mode == 'later-iter' and i > 0)
+            c = r.random()
+            if reads_here and c < 0.7:
+                vs = self.pick(pool, used, 1, 2) + ([r.choice(tg)] if tg and r.random() < 0.3 else [])
+                it = r.choice(['[%s]', '(%s,)']) % ', '.join(vs)
+            elif reads_here:
+                it = '(L(%d), %s)[0]' % (self.key(), self.pick(pool, used, 1, 1)[0])
+            elif c < 0.6:
+                it = 'L(%d)' % self.key()
+            else:
+                it = r.choice(['range(2)', '(0, 1)', '[%d]' % self.key()])
+            tg.append(q)
+            cl = 'for %s in %s' % (q, it)
+            nif = r.choice([0, 1, 1, 2]) if mode in ('filter', 'any') else r.choice([0, 0, 1])
+            if mode == 'filter' and i == ngen - 1 and nfilters + nif == 0:
+                nif = 1
+            for _ in range(nif):
+                nfilters += 1
+                vs = self.pick(pool, used, 1, 2) if mode in ('filter', 'any') else []
+                tq = [r.choice(tg)] if (r.random() < 0.5 or not vs) else []
+                f = r.random()
+                if f < 0.5:
+                    cl += ' if D(%d%s)' % (self.key(), ''.join(', ' + v for v in vs + tq))
+                elif f < 0.8 and vs:
+                    cl += ' if %s != %s' % (r.choice(tg), vs[0])
+                else:
+                    cl += ' if T(%d%s) != %s' % (self.key(), ''.join(', ' + v for v in tq), (vs or tq)[0])
+            clauses.append(cl)
+
+        def elt(plain_ok=True):
+            """-> (text, is certainly an int); plain_ok: may be a bare target / a nested comprehension (unhashable)"""
+            vs = self.pick(pool, used, 1 if mode == 'elt' else 0, 2) if mode in ('elt', 'any') else []
+            if plain_ok and depth == 0 and kind in ('list', 'gen') and r.random() < 0.15:
+                return self.comp(pool, used, depth + 1)[0], False
+            if plain_ok and not vs and r.random() < 0.4:
+                return r.choice(tg), False
+            return 'T(%d%s)' % (self.key(), ''.join(', ' + v for v in vs + [r.choice(tg)])), True
+        body = ' '.join(clauses)
+        if kind == 'list':
+            return '[%s %s]' % (elt()[0], body), False
+        if kind == 'set':
+            return '{%s %s}' % (elt(False)[0], body), False
+        if kind == 'dict':
+            return '{%s: %s %s}' % (elt(False)[0], elt()[0], body), False
+        e, is_int = elt()
+        wrap = r.choice(['sum', 'list', 'tuple', 'sorted', 'any', 'len(list'] if is_int else ['list', 'tuple', 'any'])
+        return '%s(%s %s)%s' % (wrap, e, body, ')' if wrap.endswith('(list') else ''), False
+
+    def rich(self, pool, used):
+        """an expression that reads variables of `pool` (recorded in `used`) from inside a compound expression"""
+        r = self.r
+        c = r.random()
+        if c < 0.72 or not pool:
+            return self.comp(pool, used)[0]
+        vs = self.pick(pool, used, 2, 2)
+        k = self.key()
+        forms = ['(%s if D(%d) else %s)' % (vs[0], k, vs[1]),
+                 '(T(%d, %s) and %s)' % (k, vs[0], vs[1]),
+                 '(D(%d) or %s == %s)' % (k, vs[0], vs[1]),
+                 '(%s == T(%d) != %s)' % (vs[0], k, vs[1]),
+                 '[%s, %s][D(%d)]' % (vs[0], vs[1], k),
+                 '(%s, T(%d), %s)[D(%d):2]' % (vs[0], k, vs[1], self.key()),
+                 "{'p': %s, 'r': T(%d)}[%s == %s and 'p' or 'r']" % (vs[0], k, vs[1], vs[1]),
+                 "f'{%s}-{T(%d, %s)!r}'" % (vs[0], k, vs[1]),
+                 'T(%d, *[%s, %s])' % (k, vs[0], vs[1]),
+                 "dict(p=%s, **{'r': %s})" % (vs[0], vs[1])]
+        return r.choice(forms)
+
+    def texpr(self, defined, depth=0):
+        pool = self.pool(defined)
+        if depth == 0 and pool and self.r.random() < 0.5:
+            return self.rich(pool, set())
+        return ClosureGen.texpr(self, defined, depth)
+
+    def dexpr(self, defined):
+        pool = self.pool(defined)
+        if pool and self.r.random() < 0.15:
+            return 'D(%d, %s)' % (self.key(), self.rich(pool, set()))
+        return ClosureGen.dexpr(self, defined)
+
+    def stmt(self, ind, defined, depth, in_loop, ihf):
+        r = self.r
+        x = r.random()
+        pool = self.pool(defined)
+        if x < 0.10 and depth < 3 and pool:
+            # a local function that reads variables of this function from inside a compound expression only
+            self.budget -= 1
+            name = 'g%d' % self.key()
+            self.emit(ind, 'def %s():' % name)
+            need = set()
+            if r.random() < 0.4:
+                t = 'r%d' % self.key()
+                self.emit(ind + 1, '%s = %s' % (t, self.rich(pool, need)))
+                self.emit(ind + 1, 'return T(%d, %s)' % (self.key(), t))
+            else:
+                self.emit(ind + 1, 'return %s' % self.rich(pool, need))
+            self.fns.append((name, need))
+            return defined | {name}, True
+        if x < 0.16 and depth < self.o.max_depth and self.budget > 0 and pool:
+            # a for statement whose iterable is a comprehension
+            self.budget -= 1
+            v = r.choice(self.vars)
+            self.emit(ind, 'for %s in %s:' % (v, self.comp(pool, set(), as_iterable=True)[0]))
+            self.block(ind + 1, defined | {v}, depth + 1, True, ihf)
+            return defined, True
+        return ClosureGen.stmt(self, ind, defined, depth, in_loop, ihf)
+
+
+def gen_comprehension_function(rnd):
+    g = CompGen(rnd, _progs.Opts(reads='safe', max_stmts=rnd.choice([6, 9, 12]), max_depth=3, raise_=False, aug=False,
+                                 with_=rnd.random() < 0.3, try_=rnd.random() < 0.3))
+    g.emit(0, 'def f(%s):' % ', '.join(_progs.PARAMS))
+    defined = g.block(1, set(_progs.PARAMS), 0, False, False, minlen=3)
+    callable_now = [n for n, need in g.fns if n in defined and need <= defined]
+    if callable_now and rnd.random() < 0.6:
+        g.emit(1, 'return %s()' % rnd.choice(callable_now))
+    else:
+        g.emit(1, 'return %s' % g.texpr(defined))
+    return '\n'.join(g.lines) + '\n'
+
+
 # ---------------------------------------------------------------------------------------------
 # cases for the Coq checkers (coq/Flow/LvCheck.v, RdCheck.v)
 
@@ -1980,27 +2226,38 @@ def coq_scope(d, nt):
 def fn_free_reads(fnode):
     """S: (names a local function reads from the enclosing function without declaring them nonlocal,
            names it declares nonlocal and reads).  Functions / lambdas nested in it contribute what they read
-    from outside themselves, unless fnode binds that name itself."""
+    from outside themselves, unless fnode binds that name itself.  The `for` targets of a comprehension / generator
+    expression are variables of that comprehension (not bindings of fnode); what it reads otherwise -- element,
+    iterables, filters -- is read by fnode."""
     reads, stores, nl, gl, inner_nl = set(), set(), set(), set(), set()
     for a in fnode.args.posonlyargs + fnode.args.args + fnode.args.kwonlyargs:
         stores.add(a.arg)
-    todo = list(fnode.body)
+    todo = [(n, frozenset()) for n in fnode.body]
     while todo:
-        n = todo.pop()
+        n, hidden = todo.pop()
         if isinstance(n, ast.FunctionDef):
             stores.add(n.name)
             a2, b2 = fn_free_reads(n)
-            reads |= set(a2)
+            reads |= set(a2) - hidden
             inner_nl |= set(b2)
-            todo.extend(n.decorator_list)
-            todo.extend(d for d in n.args.defaults + n.args.kw_defaults if d is not None)
+            todo.extend((x, hidden) for x in n.decorator_list)
+            todo.extend((d, hidden) for d in n.args.defaults + n.args.kw_defaults if d is not None)
             continue
         if isinstance(n, ast.Lambda):
-            reads |= set(lambda_free_reads(n))
+            reads |= set(lambda_free_reads(n)) - hidden
             continue
         if isinstance(n, ast.ClassDef):
             raise Unsupported('class in a nested function')
+        if isinstance(n, COMPS):
+            inner = frozenset(hidden | comp_targets(n))
+            first = n.generators[0]
+            todo.append((first.iter, hidden))
+            todo.extend((x, inner) for x in ast.iter_child_nodes(n) if x is not first)
+            todo.extend((x, inner) for x in [first.target] + list(first.ifs))
+            continue
         if isinstance(n, ast.Name):
+            if n.id in hidden:
+                continue
             if isinstance(n.ctx, ast.Load) or isinstance(n.ctx, ast.Del):
                 reads.add(n.id)
             if isinstance(n.ctx, (ast.Store, ast.Del)):
@@ -2011,7 +2268,7 @@ def fn_free_reads(fnode):
             nl |= set(n.names)
         elif isinstance(n, ast.Global):
             gl |= set(n.names)
-        todo.extend(ast.iter_child_nodes(n))
+        todo.extend((x, hidden) for x in ast.iter_child_nodes(n))
     own = stores - nl - gl
     if inner_nl - own:
         # a function nested deeper declares a variable of an outer function nonlocal and reads it: activity folds the
@@ -2107,7 +2364,7 @@ EMPTY_EFFECT = {'reads': [], 'writes': [], 'dels': [], 'ftarget': [], 'body': 0}
 
 def lv_case(an, fi, idx):
     nt = Names()
-    eff = py_effects(fi)
+    eff = py_effects(fi, comps=True)
     sreach = defs_reaching(fi)
     ext = nesting_of(an).external_defs(fi.fn)
     rows = []
@@ -2314,7 +2571,12 @@ def check_property(run, kind, generate):
         run.rule += ('; C07 also: every activation of a nested function is judged against that function\'s own graph (value written '
                      'in the activation and read later in it by the function itself, by functions nested in it or by local functions '
                      'of the enclosing functions whose definition reaches its definition -- called by name, alias, container or '
-                     'sibling chains), + a sibling-writer stream of its own for that class')
+                     'sibling chains), + a sibling-writer stream of its own for that class; + a comprehension stream of its own: '
+                     'variables read from every position of list / set / dict comprehensions and generator expressions consumed on '
+                     'the spot (element, key / value, first and later iterables, filters of every for clause, nested comprehension; '
+                     'often ONLY in the filters) and from other compound expressions (conditional, boolean, ==-chain, subscript / '
+                     'slice, f-string, starred argument), as right-hand sides, return values, test arguments, for iterables and in '
+                     'bodies of local functions called later, after if / while / for / try statements assigning the variables')
     rnd = random.Random(run.seed * 7919 + (6 if kind == 'rd' else 7))
     cases = []
     meta = []           # index -> (src, fn name, stream)
@@ -2330,14 +2592,22 @@ def check_property(run, kind, generate):
     # C06 only, likewise: raises that sit deeper in a try body than the body's fall-through path is long
     nextra = 40 if quick else 400
     rnd_extra = random.Random(run.seed * 7919 + (1000007 if kind == 'lv' else 2000003))
+    # C07 only, likewise: reads from every position of comprehensions / generator expressions and other compound expressions
+    ncomp = (70 if quick else 700) if kind == 'lv' else 0
+    rnd_comp = random.Random(run.seed * 7919 + 3000017)
     nested_stats = {}
-    for it in range(len(corpus) + nprog + nextra):
+    comp_stats = {}
+    for it in range(len(corpus) + nprog + nextra + ncomp):
         vec_rnd = rnd
         if it < len(corpus):
             sname, src, cdv = ('corpus:' + corpus[it][0], corpus[it][1], corpus[it][2])
         elif it < len(corpus) + nprog:
             sname, src = program_stream(rnd, it)
             cdv = None
+        elif it >= len(corpus) + nprog + nextra:
+            sname, src = 'comprehension', gen_comprehension_function(rnd_comp)
+            cdv = None
+            vec_rnd = rnd_comp
         elif kind == 'lv':
             sname, src = 'sibling-writer', gen_sibling_writer_function(rnd_extra)
             cdv = None
@@ -2358,6 +2628,12 @@ def check_property(run, kind, generate):
             failures.append(('analysis raised %s: %s' % (type(e).__name__, e), None, {'program': src}))
             continue
         run.count()
+        if sname == 'comprehension' or any(isinstance(x, COMPS) for x in ast.walk(an.fn)):
+            comp_stats['programs'] = comp_stats.get('programs', 0) + 1
+            for x in ast.walk(an.fn):
+                if isinstance(x, COMPS):
+                    comp_stats[type(x).__name__] = comp_stats.get(type(x).__name__, 0) + 1
+                    comp_stats['filters'] = comp_stats.get('filters', 0) + sum(len(g.ifs) for g in x.generators)
         for kw in ('while', 'for', 'try', 'finally', 'except', 'break', 'continue', 'return', 'raise', 'with', 'else', 'def', 'nonlocal', 'del'):
             if re.search(r'\b%s\b' % kw, src):
                 hist[kw] = hist.get(kw, 0) + 1
@@ -2380,6 +2656,8 @@ def check_property(run, kind, generate):
                 skipped[str(d.val)] = skipped.get(str(d.val), 0) + 1
                 continue
             runs += 1
+            if 'programs' in comp_stats and any(isinstance(x, COMPS) for x in ast.walk(an.fn)):
+                comp_stats['runs'] = comp_stats.get('runs', 0) + 1
             if not d.on_graph:
                 off_graph += 1
             fs = liveness_failures(an, fi, d) if kind == 'lv' else reachdef_failures(an, fi, d)
@@ -2399,6 +2677,7 @@ def check_property(run, kind, generate):
     run.extra['construct_histogram'] = hist
     if kind == 'lv':
         run.extra['nested_function_activations_judged'] = nested_stats
+        run.extra['comprehension_programs'] = comp_stats
 
     module = 'MV.Flow.LvCheck' if kind == 'lv' else 'MV.Flow.RdCheck'
     bad, err = coq_eval_cases(pid, 'cases', cases, 'lv_case' if kind == 'lv' else 'rd_case',
